@@ -194,10 +194,14 @@ package pos
 //@   requires vv != nil && s != nil
 //@   modifies vv.values, vv.cache.indexes, vv.cache.ids, vv.cache.weights, vv.cache.totalWeight, nsort
 //@   at call rlp.Stream).Decode[1] modifies arr
+//@   at call pos.ValidatorsBuilder).Build[1] assumes len(arr) <= MaxW
 //@   ensures  [valid] result == nil ==> valid(vv)
+//@   hint assert result == nil && distinctIDs(arr) && nonzeroW(arr) ==> forall(j, 0, len(arr), has(builder, arr[j].ID) && builder[arr[j].ID] == arr[j].Weight && arr[j].Weight != 0)
+//@   hint assert result == nil ==> forall(id idx.ValidatorID, has(vv.values, id) == (has(builder, id) && builder[id] != 0)) && forall(id idx.ValidatorID, has(vv.values, id) ==> vv.values[id] == builder[id])
 //@   ensures  [roundtrip] result == nil && distinctIDs(arr) && nonzeroW(arr) ==> forall(j, 0, len(arr), has(vv.values, arr[j].ID) && vv.values[arr[j].ID] == arr[j].Weight)
 //@   ensures  [only] result == nil ==> forall(id idx.ValidatorID, has(vv.values, id) ==> exists(j, 0, len(arr), arr[j].ID == id))
 //@   loop 1 modifies builder[*]
 //@   loop 1 invariant builder != nil && 0 <= _k && _k <= len(_range) && len(builder) <= _k
+//@   loop 1 invariant [same] arr == _range
 //@   loop 1 invariant [only] forall(id idx.ValidatorID, has(builder, id) ==> exists(j, 0, _k, _range[j].ID == id))
-//@   loop 1 invariant [pairs] distinctIDs(_range) && nonzeroW(_range) ==> len(builder) == _k && forall(j, 0, _k, has(builder, _range[j].ID) && builder[_range[j].ID] == _range[j].Weight)
+//@   loop 1 invariant [pairs] distinctIDs(_range) && nonzeroW(_range) ==> forall(j, 0, _k, has(builder, _range[j].ID) && builder[_range[j].ID] == _range[j].Weight)
